@@ -7,6 +7,7 @@ import Proofs.C08Exhaust
 import Proofs.C08SeqSpec
 import Proofs.C08Any
 import Proofs.C08Calm
+import Proofs.C08Hist
 /-!
 # C08 — stream ids are unique while in use, never 0 or out of range, and all get used
 
@@ -497,7 +498,69 @@ theorem C08_sequential_spec (n : Nat) (hn : 0 < n) (ops : List Op) (hops : ∀ o
   have h := specInv_run hn ops hops (init n) (specInit (64 * n)).tbl 0 (specInv_init n hn)
   exact ⟨h, by rw [seqMon_eq]; exact h⟩
 
+/-! ### any history: every value of the rotating offset word; the counter is never consulted by `GetStream` -/
+
+/-- The word scan of `GetStream`, for EVERY value `o` of the offset word (all 2^32) and every number of
+    words `nb` (1 ≤ nb ≤ 2^31; the code has 2 and 512):
+    (1) the uint32 computation of the code (`scanPos32`: `(i + (o+1)%nb) % nb`, the increment wrapping at
+        2^32) is the `Nat` expression `tstep` uses — in particular for `o = 2^32-1`, `2^31-1`;
+    (2) the word index stays inside the bitset;
+    (3) the scan `i = 0..nb-1` visits every word exactly once (some `i` reaches it, and only one). -/
+theorem C08_scan_every_word_once (nb o : UInt32) (h0 : 0 < nb.toNat) (hmax : nb.toNat ≤ 2147483648) :
+    (∀ i, i < nb.toNat →
+        (scanPos32 nb o (UInt32.ofNat i)).toNat = (i + nextOffset nb.toNat o.toNat) % nb.toNat) ∧
+    (∀ i, i < nb.toNat → (scanPos32 nb o (UInt32.ofNat i)).toNat < nb.toNat) ∧
+    (∀ pos, pos < nb.toNat → ∃ i, i < nb.toNat ∧ (scanPos32 nb o (UInt32.ofNat i)).toNat = pos ∧
+        ∀ i', i' < nb.toNat → (scanPos32 nb o (UInt32.ofNat i')).toNat = pos → i' = i) := by
+  have hoff := nextOffset_lt h0 o.toNat
+  have e := scanPos32_toNat nb o h0 hmax
+  refine ⟨e, ?_, ?_⟩
+  · intro i hi; rw [e i hi]; exact Nat.mod_lt _ h0
+  · intro pos hpos
+    obtain ⟨i, hi, hp⟩ := rot_surj hoff hpos
+    refine ⟨i, hi, by rw [e i hi]; exact hp, ?_⟩
+    intro i' hi' hp'
+    rw [e i' hi'] at hp'
+    exact rot_inj hi' hi hoff (by rw [hp', hp])
+
+/-- A complete `GetStream` (running alone: sequentially, or inside a window in which the other goroutines are
+    parked in the middle of their calls — e.g. a `Clear` between its CAS and its decrement, when the counter
+    still counts an id whose bit is already clear) succeeds whenever some id is free in the bitset, for EVERY
+    value of the in-use counter and EVERY value of the offset word: it consults neither to decide. -/
+theorem C08_getstream_any_counter_any_offset (sh : Shared) (hn : 0 < sh.words.length)
+    (x : Nat) (hx : x < 64 * sh.words.length) (hfree : bitAt sh.words x = false) :
+    ∃ id, id < 64 * sh.words.length ∧ bitAt sh.words id = false ∧
+      (getStream sh).2 = some (.stream id true) ∧ (getStream sh).1.words = setBit sh.words id ∧
+      (getStream sh).1.inuse = sh.inuse + 1 := by
+  rcases getStream_spec sh hn with ⟨id, h1, h2, h3⟩ | ⟨h1, _⟩
+  · exact ⟨id, h1, h2, by rw [h3], by rw [h3], by rw [h3]⟩
+  · rw [h1 x hx] at hfree; cases hfree
+
+/-- sequential use, ALL histories: all sequences of `GetStream` / `Clear(id)` (id ≠ 0) / `Available` in which
+    the offset word is set to ARBITRARY values between the calls (the state the word has after any number of
+    past calls, e.g. 2^32 − k), both capacities: every answer is allowed by the abstract id-set specification
+    and `Available()` = `NumStreams-1-#handed out` after every op. (`seqMonH` is the fused form the driver
+    runs for `smon` lines.) -/
+theorem C08_sequential_spec_any_history (n : Nat) (hn : 0 < n) (ops : List HOp) (hops : HOp.op (.clear 0) ∉ ops) :
+    specCheck (64 * n) (specInit (64 * n)) (hTrace (init n) ops) = true ∧
+    seqMonH (64 * n) (init n) (specInit (64 * n)).tbl 0 ops = true := by
+  have h := specInv_runH hn ops hops (init n) (specInit (64 * n)).tbl 0 (specInv_init n hn)
+  exact ⟨h, by rw [seqMonH_eq]; exact h⟩
+
 /-! ### non-vacuity -/
+
+/-- the scan across the wrap of the offset word: offset = 2^32-1, two words: the scan starts at word 0 -/
+example : scanPos32 2 4294967295 0 = 0 ∧ scanPos32 2 4294967295 1 = 1 ∧
+    scanPos32 512 4294967294 0 = 511 ∧ scanPos32 512 4294967294 1 = 0 := by decide
+
+/-- a history with the offset word at 2^32-1: the model hands out id 1 (word 0), then id 64 (word 1) -/
+example : (hTrace (init 2) [.setOffset 4294967295, .op .get, .op .get]).map (fun r => r.2.1) =
+    [some (.stream 1 true), some (.stream 64 true)] := by decide
+
+/-- the window of `C08_getstream_any_counter_any_offset`: all 127 ids handed out, a `Clear(1)` between its CAS
+    and its decrement (bit clear, counter still 127): a complete `GetStream` returns id 1 -/
+example : let sh : Shared := { words := [allOnes &&& ~~~ mask 1, allOnes], inuse := 127, offset := 1 }
+    (getStream sh).2 = some (.stream 1 true) := by decide
 
 /-- the hypothesis of `C08_no_false_exhaustion` is satisfiable: a full generator -/
 example : let full : Shared := { words := [allOnes, allOnes], inuse := 127, offset := 1 }
